@@ -1,7 +1,8 @@
 #!/usr/bin/env python3
 """mkmutant.py <PROP> <name> <file-relative-to-repo> <<< JSON [{"old":..., "new":...}, ...]
 creates /verif/mutants/<PROP>/<name>.patch from exact string replacements (each `old` must occur exactly once,
-unless "count" given). Several files: pass file as '-' and put "file" in each edit."""
+unless "count" given). Several files: pass file as '-' and put "file" in each edit.
+BASE_PATCH=<patch>: the edits are made on top of that (behaviour-preserving) patch; the mutant is base + edits."""
 import json, os, subprocess, sys, tempfile, shutil
 prop, name, file = sys.argv[1:4]
 edits = json.load(sys.stdin)
@@ -15,6 +16,14 @@ try:
     for f, es in byfile.items():
         src = open(os.path.join(repo, f)).read()
         new = src
+        if os.environ.get("BASE_PATCH"):
+            bd = os.path.join(tmp, "base"); shutil.rmtree(bd, ignore_errors=True)
+            os.makedirs(os.path.dirname(os.path.join(bd, f)), exist_ok=True)
+            open(os.path.join(bd, f), "w").write(src)
+            r = subprocess.run(["patch", "-p1", "-s", "-f", "-i", os.path.abspath(os.environ["BASE_PATCH"])], cwd=bd, capture_output=True, text=True)
+            new = open(os.path.join(bd, f)).read()
+            if new == src:
+                sys.exit("base patch does not change %s: %s" % (f, r.stdout[-300:]))
         for e in es:
             n = new.count(e["old"])
             if n != e.get("count", 1):
